@@ -82,8 +82,11 @@ def replay_native(inst, obligation, model_json):
     got = ('return', result)
   except Exception as e:  # pylint: disable=broad-except
     got = ('raise', e)
-  kind = obligation.split('/')[2] if obligation.count('/') >= 2 else ''
   parts = obligation.split('/')
+  kinds = ('POST', 'EXC', 'TRACE', 'INSIDE', 'EXIT', 'SURFACE')
+  ki = max((i for i, p_ in enumerate(parts) if p_ in kinds), default=-1)
+  kind = parts[ki] if ki >= 0 else ''
+  parts = ['', '', kind] + parts[ki + 1:]
   detail = dict(call=f'{getattr(fn, "__qualname__", fn)}', args=repr(args)[:400],
                 observed=(got[0], repr(got[1])[:300]))
   try:
@@ -237,7 +240,7 @@ def run_property(prop, tier='quick', seed=0, jobs=None, only=None):
     cover += r['covered']
     solver_s += r['solver_s']
     assumptions.update(r.get('assumptions', []))
-    if r['covered'] == 0:
+    if r['covered'] == 0 and not r['unsupported']:
       errors.append(f"{r['contract']}: VACUOUS: no feasible path through the function under its precondition")
     if not r['obligations'] and not r['unsupported']:
       errors.append(f"{r['contract']}: zero obligations generated")
